@@ -123,6 +123,8 @@ class Explorer:
         self.types.default_modules += [m for m in ('spec.c06', 'spec.c07', 'spec.c19x', 'spec.c02x') if index.module(m) is not None]
         # searched last: private classes of the format analysis (`_FormatInferInstance`) and the stand-in `DefUseM` of spec/c14x_refine.py as Lemma parameter types
         self.types.default_modules += [m for m in ('fpy2.analysis.format_infer.analysis', 'spec.c14x_refine') if index.module(m) is not None]
+        # C13y: probes / stand-ins of spec/c13y.py (SeedProbe, FixProbe ...), searched last
+        self.types.default_modules += [m for m in ('fpy2.analysis.array_size', 'fpy2.analysis.value_class', 'spec.c13y') if index.module(m) is not None]
         self.intrinsics = Intrinsics(self)
         self.global_cache = {}
         self.tags = Tags()
@@ -1094,7 +1096,7 @@ class Explorer:
                 bounded_opt = c.opts.get('bounded')
                 if bounded_opt:
                     st, secs, backend, smt2 = self.discharge(ob.pc, ob.goal)
-                    if st not in ('unsat', 'bounded-unsat') and c.opts.get('dialect'):
+                    if st not in ('unsat', 'bounded-unsat') and (c.opts.get('dialect') or c.opts.get('bounded_refute')):   # bounded_refute (C13y): shape stand-ins want their counterexamples replayed too
                         # bounded FPy stand-in: the model of the failed query is a counterexample
                         cex, rstatus = self.refute(P, c, ob, [bounded_opt], c.opts.get('bounded_ms', 60000))
                 else:
